@@ -80,6 +80,9 @@ def check(chk, facts):
          ["From<" + M + "expr::Var> for", "Var>"], M + "expr::Var"),
     ]
     n = 0
+    if chk.secondary and not any(x.startswith("cedar_policy::proto::") for x in facts.fns.index):
+        chk.ob(rule, "gated:cedar_policy::proto", True, "the protobuf module is not part of the default-feature build; decided on the experimental configuration")
+        pairs = []
     for label, encp, enc_adt, decp, dec_adt in pairs:
         fe = find_impl(chk, facts, rule, F, encp, "encode " + label)
         fd = find_impl(chk, facts, rule, F, decp, "decode " + label)
